@@ -177,9 +177,12 @@ def oracle(b, passes, existing, script, out, smp, warned) -> list[str]:
     return errs
 
 
-def run_real(b, passes, dims, existing, script, reuse=False):
+def run_real(b, passes, dims, existing, script, reuse=False, smp=None):
     PRES.update(presentation(dims, b, passes, existing))
-    smp = make_sampler(script, b, passes, reuse=reuse)
+    if smp is None:
+        smp = make_sampler(script, b, passes, reuse=reuse)
+    else:
+        smp.load(script, b, passes)
     ex = present(existing, dims, "hist")
     ex0 = ex.copy()
     buf = io.StringIO()
@@ -257,6 +260,7 @@ def run(chk: Check):
             chk.disagree("BaseSampler.sample != BlackIt.Dedup.sample",
                          {"case": {"dims": dims, "b": b, "passes": passes, "existing": existing, "script": script},
                           "impl": impl + f" warned {int(warned)}", "model": ans})
+    object_life(chk, rng)
     for (dims, new, ex), ans in zip(find_cases, answers[len(cases):]):
         PRES.update(presentation(dims, len(new), 0, ex))
         got = BaseSampler.find_and_get_duplicates(present(new, dims, "batch"), present(ex, dims, "hist"))
@@ -267,6 +271,60 @@ def run(chk: Check):
             chk.fail(f"find_and_get_duplicates reports {impl}, repeated positions are {sorted(R)}", {"case": {"find": True, "dims": dims, "new": new, "existing": ex}})
         if impl != ans:
             chk.disagree("find_and_get_duplicates != BlackIt.Dedup.findDuplicates", {"new": new, "existing": ex, "impl": impl, "model": ans})
+
+
+def object_life(chk: Check, rng):
+    """one sampler object through the life a calibration gives it: a history that only grows (its own batches and other samplers' rows), two to five calls,
+    and - as a checkpoint restore does - a state round trip (__reduce_ex__/__getstate__/__setstate__, via copy.deepcopy) between some of the calls; the later
+    draws keep hitting points recorded early in the history.  Every call is an ordinary case of the property and is compared with the model."""
+    import copy
+
+    n = 150 if chk.tier == "quick" else 2500
+    pending = []
+    for it in range(n):
+        dims = rng.choice([1, 2, 3]); alpha = rng.choice([2, 3, 4]); b = rng.randint(1, 4); passes = rng.randint(1, 4)
+        row = lambda: [rng.randrange(alpha) for _ in range(dims)]
+        history = [row() for _ in range(rng.choice([0, 1, 2, 5]))]
+        smp = None
+        events = []
+        for call in range(rng.randint(2, 5)):
+            script = []
+            for k in range(passes + 1):
+                rows = []
+                for _ in range(b):
+                    kind = rng.choice(["fresh", "early", "early", "hist", "inbatch", "random"])
+                    if kind in ("early", "hist") and history:
+                        rows.append(list(history[rng.randrange(max(1, len(history) // 2))] if kind == "early" else rng.choice(history)))
+                    elif kind == "inbatch" and rows:
+                        rows.append(list(rng.choice(rows)))
+                    elif kind == "fresh":
+                        rows.append([1000 + 100 * call + 10 * k + len(rows) + j for j in range(dims)])
+                    else:
+                        rows.append(row())
+                script.append(rows)
+            existing = [list(r) for r in history]
+            if smp is not None and rng.random() < 0.5:
+                smp = copy.deepcopy(smp); events.append("state_round_trip")
+                chk.count("object_life:state_round_trip_between_calls")
+            case = {"case": {"dims": dims, "b": b, "passes": passes, "existing": existing, "script": script, "object_life": list(events), "call": call}}
+            try:
+                smp, out, warned, hist_ok = run_real(b, passes, dims, existing, script, smp=smp if smp is not None else make_sampler(script, b, passes))
+            except Exception as e:  # noqa: BLE001
+                chk.fail(f"sample() raised {type(e).__name__}: {str(e)[:120]} on call {call} of one sampler object (events {events})", case)
+                break
+            chk.case(["life", it, call, dims, b, passes, existing, script], len(smp.requests) > 1, {"batch_size": b, "passes": passes, "call": call, "events": list(events), "returned": out.tolist()})
+            chk.count("object_life:calls")
+            rec = type("Rec", (), {"requests": list(smp.requests), "snapshots": list(smp.snapshots)})()
+            for e in oracle(b, passes, existing, script, out, rec, warned):
+                chk.fail(f"sample() on call {call} of one sampler object over a growing history (events {events}): " + e, case)
+            if not hist_ok:
+                chk.fail("sample() modified the history array", case)
+            pending.append((req(passes, b, dims, existing, script), f"samples {rows_s(out.tolist())} | requests {','.join(str(r) for r in rec.requests)}", warned, case))
+            events.append("call")
+            history += [list(map(float, r)) for r in out.tolist()] + [row() for _ in range(rng.choice([0, 0, 1, 3]))]
+    for (rq, impl, warned, case), ans in zip(pending, lean_run([p[0] for p in pending]) if pending else []):
+        if impl != ans.split(" | runs ")[0] or warned != ans.endswith("warned 1"):
+            chk.disagree("BaseSampler.sample != BlackIt.Dedup.sample (one object, growing history, state round trips)", {**case, "impl": impl + f" warned {int(warned)}", "model": ans})
 
 
 def replay(path: Path) -> int:
